@@ -128,17 +128,86 @@ def has_comma_defect(t, top=True):
     return any(has_comma_defect(a) for a in t["args"])
 
 
+def nested_tuple(rng, levels, named=None, generics=None):
+    """tuple-in-tuple, `levels` deep: unit and 1-tuple elements, references inside tuples, with generics alongside or
+    with NO generic anywhere inside the outer tuple (generics=False)"""
+    if generics is None:
+        generics = rng.random() < 0.5
+    def leaf():
+        r = rng.random()
+        if r < 0.15:
+            return UNIT
+        if r < 0.3:
+            return Ref(P(rng.choice(["str", "i32", "bool"])))
+        if r < 0.4 and named:
+            return P(rng.choice(list(named)))
+        if r < 0.55 and generics:
+            return rng.choice([P("Vec", P("u8")), P("HashMap", P("String"), P("i32")), P("Option", P("bool")), P("Vec", Tup(P("i32"), P("i32")))])
+        return P(rng.choice(["i32", "f64", "bool", "String", "u8"]))
+    def tup(lv):
+        n = rng.choice([1, 2, 2, 3, 4])
+        els = []
+        for _ in range(n):
+            els.append(tup(lv - 1) if lv > 1 and rng.random() < 0.6 else leaf())
+        if lv > 1 and not any(e["k"] == "tuple" and e["ts"] for e in els):
+            els[rng.randrange(len(els))] = tup(lv - 1)
+        return Tup(*els)
+    return tup(levels)
+
+
+def deep_type(rng, depth, named=None):
+    """`depth` levels of nesting mixing Option / references (which nest neither in TypeScript nor in a Zod chain) with at most
+    25 levels of Vec / sets / Result / maps / tuples (at most 40 maps and tuples) around a bottom that is a tuple, a reference,
+    unit or a project type: the specification parser of the oracle has a nesting budget of 64 for types and for expressions,
+    so the TypeScript nesting (maps, tuples) and the Zod nesting (everything but Option and &) of a generated case stay below it."""
+    t = rng.choice([Tup(P("String"), P("i32")), STR_REF, UNIT, Tup(Tup(P("i32"), P("i32")), P("bool")), Ref(Tup(P("u8"), P("bool")))] +
+                   ([P(rng.choice(list(named)))] if named else []))
+    heavy = rng.randint(0, 25)   # a tuple / union costs two levels of the expression budget
+    slots = set(rng.sample(range(depth), min(heavy, depth)))
+    nest_ts = 0
+    for i in range(depth):
+        if i in slots:
+            c = rng.choice(["Vec", "HashSet", "Result", "BTreeSet", "Result1", "Vec"] + (["HashMap", "tuple1", "tuple2", "BTreeMap"] if nest_ts < 40 else []))
+        else:
+            c = rng.choice(["Option", "ref", "Option"])
+        if c in ("Vec", "Option", "HashSet", "BTreeSet"):
+            t = P(c, t)
+        elif c == "ref":
+            t = Ref(t)
+        elif c == "Result":
+            t = P("Result", t, P("String"))
+        elif c == "Result1":
+            t = P("Result", t)
+        elif c in ("HashMap", "BTreeMap"):
+            t = P(c, P("String"), t); nest_ts += 1
+        elif c == "tuple1":
+            t = Tup(t); nest_ts += 1
+        else:
+            t = (Tup(P("i32"), t) if rng.random() < 0.5 else Tup(t, P("bool"))); nest_ts += 1
+    return t
+
+
+_DEEP = [0]      # how many deep types the project being generated may still get (set by gen_case)
+
+
 def clean_type(rng, depth, named, allow_result=False):
-    for _ in range(50):
-        t = nest(rng, depth, named, allow_result)
-        if not has_comma_defect(t):
-            return t
-    return P("String")
+    # (types whose Result / tuple parts print commas were excluded here while the first-comma split was a recorded
+    #  defect; since its repair they are ordinary)
+    r = rng.random()
+    if _DEEP[0] > 0 and r < 0.3:
+        _DEEP[0] -= 1
+        return deep_type(rng, rng.randint(30, 200), named)
+    if r < 0.2:
+        return nested_tuple(rng, rng.randint(2, 3), named)
+    return nest(rng, depth, named, allow_result)
 
 
 def gen_case(rng, profile, idx=0):
     adversarial = profile == "adversarial"
     tags = []
+    _DEEP[0] = rng.randint(1, 3) if rng.random() < 0.1 else 0
+    if _DEEP[0]:
+        tags.append("deep_types")
     ntypes = rng.randint(1, 4)
     names = pick_names(rng, TYPE_NAMES[:-1] if not adversarial else TYPE_NAMES[:-1], ntypes)
     enum_flags = [rng.random() < 0.3 for _ in names]
